@@ -163,7 +163,7 @@ where
 
     /// Environment fault "the peer's connection is stalled and its send queue is full": fill the
     /// bounded control queue (GRAFT / PRUNE / IDONTWANT, `CONTROL_MSGS_LIMIT` entries) of `peer`
-    /// through the production `Queue::try_push` with GRAFTs for a topic nobody uses, until the
+    /// through the production `Queue::try_push` with empty IDONTWANTs until the
     /// queue refuses. Returns the number of entries pushed. From then on the behaviour's own
     /// `send_message` fails for control messages to this peer, exactly as with a handler that
     /// never drains.
@@ -171,12 +171,13 @@ where
         let Some(details) = self.connected_peers.get_mut(peer) else {
             return 0;
         };
-        let topic = TopicHash::from_raw("verif-stalled-backlog");
+        // entries without heap data (an IDONTWANT with no ids): the content of the backlog is
+        // irrelevant, it is never sent; this keeps the fault cheap enough for exhaustive search
         let mut n = 0;
         while details
             .messages
-            .try_push(crate::types::RpcOut::Graft(crate::types::Graft {
-                topic_hash: topic.clone(),
+            .try_push(crate::types::RpcOut::IDontWant(crate::types::IDontWant {
+                message_ids: Vec::new(),
             }))
             .is_ok()
         {
